@@ -256,6 +256,9 @@ func famGate(g *sgen, i int) J {
 	if entry == "getInbox" && kind == "social" {
 		kind = "federating"
 	}
+	if (entry == "postInbox" || entry == "postOutbox") && g.r.chance(10) {
+		kind = "none" // an actor with neither protocol enabled: both POST endpoints are disabled
+	}
 	method := "POST"
 	if entry == "getInbox" || entry == "getOutbox" || entry == "handler" {
 		method = "GET"
